@@ -120,36 +120,57 @@ pub const LARGE_RECORDS: [(usize, u32, u32, u32); 10] = [
     (ORPHA, 1, 60, 41),
 ];
 
-fn large_linked(rec: usize, leaf_id: u32) -> bool {
+/// linked leaves of record `rec` in a flat ontology of `m` leaves: K scales with m (K_20000 * m / 20000, at least 1)
+fn large_linked_m(rec: usize, leaf_id: u32, m: u32) -> bool {
     let (_, _, k, mult) = LARGE_RECORDS[rec];
-    (u64::from(leaf_id) * u64::from(mult)) % u64::from(BIG_M) < u64::from(k)
+    let k = (u64::from(k) * u64::from(m) / u64::from(BIG_M)).max(1);
+    (u64::from(leaf_id) * u64::from(mult)) % u64::from(m) < k
+}
+
+fn build_big(m: u32) -> Ontology {
+    let mut f = Facts::default();
+    f.terms.push(TermFact { id: 1, name: "root".into(), obsolete: false, replacement: None });
+    for id in 2..=m + 1 {
+        f.terms.push(TermFact { id, name: "leaf".into(), obsolete: id % 11 == 3, replacement: None });
+        f.edges.push((id, 1));
+    }
+    for (r, (kind, rid, _, _)) in LARGE_RECORDS.iter().enumerate() {
+        let terms: Vec<u32> = (2..=m + 1).filter(|id| large_linked_m(r, *id, m)).collect();
+        f.recs[*kind].push(RecFact { id: *rid, name: "r".into(), terms });
+    }
+    // HP:0000118 is one of the leaves, so `from_bytes` finds both default roots
+    via_binary(&f, 3).expect("large ontology")
 }
 
 thread_local! {
-    static BIG: Ontology = {
-        let mut f = Facts::default();
-        f.terms.push(TermFact { id: 1, name: "root".into(), obsolete: false, replacement: None });
-        for id in 2..=BIG_M + 1 {
-            f.terms.push(TermFact { id, name: "leaf".into(), obsolete: id % 11 == 3, replacement: None });
-            f.edges.push((id, 1));
-        }
-        for (r, (kind, rid, _, _)) in LARGE_RECORDS.iter().enumerate() {
-            let terms: Vec<u32> = (2..=BIG_M + 1).filter(|id| large_linked(r, *id)).collect();
-            f.recs[*kind].push(RecFact { id: *rid, name: "r".into(), terms });
-        }
-        // HP:0000118 is one of the leaves, so `from_bytes` finds both default roots
-        via_binary(&f, 3).expect("large ontology")
-    };
+    static BIG: Ontology = build_big(BIG_M);
+}
+
+/// The same check on a freshly built flat ontology with `m` leaves (populations of 10^5 and more).
+#[allow(clippy::too_many_arguments)]
+pub fn check_huge(m: u32, mode: u8, stride: u32, offset: u32, target: usize, k: u32, n: u32, rot: u32, stats: &mut Stats) -> CheckResult {
+    ensure!((1000..=2_000_000).contains(&m), "harness/bad-case", "bad population size");
+    let ont = build_big(m);
+    let r = check_large_on(&ont, m, 1e-7, mode, stride, offset, target, k, n, rot, stats);
+    if r.is_ok() && m >= 100_000 {
+        stats.label("N>=100000");
+    }
+    r
 }
 
 #[allow(clippy::too_many_arguments)]
 fn check_large(mode: u8, stride: u32, offset: u32, target: usize, k: u32, n: u32, rot: u32, stats: &mut Stats) -> CheckResult {
+    BIG.with(|ont| check_large_on(ont, BIG_M, LARGE_TOL, mode, stride, offset, target, k, n, rot, stats))
+}
+
+#[allow(clippy::too_many_arguments)]
+fn check_large_on(ont: &Ontology, big_m: u32, tol: f64, mode: u8, stride: u32, offset: u32, target: usize, k: u32, n: u32, rot: u32, stats: &mut Stats) -> CheckResult {
     ensure!(target < LARGE_RECORDS.len() && stride >= 1 && n >= 1, "harness/bad-case", "bad large case");
     // background: all terms / all leaves / every stride-th leaf
-    let leaves: Vec<u32> = (2..=BIG_M + 1).filter(|id| mode < 2 || id % stride == offset % stride).collect();
+    let leaves: Vec<u32> = (2..=big_m + 1).filter(|id| mode < 2 || id % stride == offset % stride).collect();
     let with_root = mode == 0;
-    let linked: Vec<u32> = leaves.iter().copied().filter(|id| large_linked(target, *id)).collect();
-    let unlinked: Vec<u32> = leaves.iter().copied().filter(|id| !large_linked(target, *id)).collect();
+    let linked: Vec<u32> = leaves.iter().copied().filter(|id| large_linked_m(target, *id, big_m)).collect();
+    let unlinked: Vec<u32> = leaves.iter().copied().filter(|id| !large_linked_m(target, *id, big_m)).collect();
     let k = (k as usize).min(linked.len()).min(n as usize);
     let rest = (n as usize - k).min(unlinked.len());
     let mut sample: Vec<u32> = Vec::with_capacity(k + rest);
@@ -164,7 +185,7 @@ fn check_large(mode: u8, stride: u32, offset: u32, target: usize, k: u32, n: u32
     }
     let pop = leaves.len() + usize::from(with_root);
     let draws = sample.len();
-    BIG.with(|ont| {
+    {
         for kind in 0..3 {
             let mut bgt: Vec<HpoTerm> = leaves.iter().map(|t| ont.hpo(*t).unwrap()).collect();
             if with_root {
@@ -180,8 +201,8 @@ fn check_large(mode: u8, stride: u32, offset: u32, target: usize, k: u32, n: u32
                 if *rk != kind {
                     continue;
                 }
-                let succ = leaves.iter().filter(|id| large_linked(r, **id)).count() + usize::from(with_root);
-                let kk = sample.iter().filter(|id| large_linked(r, **id)).count();
+                let succ = leaves.iter().filter(|id| large_linked_m(r, **id, big_m)).count() + usize::from(with_root);
+                let kk = sample.iter().filter(|id| large_linked_m(r, **id, big_m)).count();
                 stats.eval(1);
                 let tuple = format!("{}({rid}): N={pop} K={succ} n={draws} k={kk}", KIND_NAMES[kind]);
                 let o = got.iter().filter(|o| o.id == *rid).collect::<Vec<_>>();
@@ -195,7 +216,7 @@ fn check_large(mode: u8, stride: u32, offset: u32, target: usize, k: u32, n: u32
                 ensure!(o.count == kk as u64, format!("{}-enrichment/count", KIND_NAMES[kind]), "{tuple}: count = {}", o.count);
                 ensure!(!o.p.is_nan() && o.p >= 0.0 && o.p <= 1.0, "pvalue/outside-0-1", "{tuple}: p-value {:e} outside [0,1]", o.p);
                 let want = hypergeom_tail_large(pop, succ, draws, kk);
-                ensure!(rel_close(o.p, want, LARGE_TOL), "pvalue/value/large-population", "{tuple}: p-value {:e}, exact tail P[X>=k] = {:e}", o.p, want);
+                ensure!(rel_close(o.p, want, tol), "pvalue/value/large-population", "{tuple}: p-value {:e}, exact tail P[X>=k] = {:e}", o.p, want);
                 let fold = (kk as f64 / draws as f64) / (succ as f64 / pop as f64);
                 ensure!(rel_close(o.fold, fold, 1e-12), "fold-enrichment", "{tuple}: enrichment {}, (k/n)/(K/N) = {fold}", o.fold);
                 if std::env::var("C06_DEBUG").is_ok() && want > 0.0 {
@@ -214,9 +235,11 @@ fn check_large(mode: u8, stride: u32, offset: u32, target: usize, k: u32, n: u32
             }
             ensure!(got.len() == expected, format!("{}-enrichment/extra-records", KIND_NAMES[kind]), "{} records reported, {expected} linked to the sample", got.len());
         }
-        stats.label("N~20000");
+        if big_m == BIG_M {
+            stats.label("N~20000");
+        }
         Ok(())
-    })
+    }
 }
 
 /// tolerance for populations of ~20 000 (ln-gamma based terms of size ~1e4..1e5 lose a few more digits)
@@ -412,7 +435,7 @@ impl Property for C06 {
         "C06"
     }
     fn rule(&self) -> String {
-        "Fixed two-level ontology loaded from own v3 bytes (root, 20 inner nodes, 420 leaves, every ninth leaf and one inner node flagged obsolete; 30 records per kind with the same ids in every kind, annotated to pseudo-random K-subsets of the leaves, K from 1 to 420 incl. 168..172). Generated per case: a background (subset of the terms, leaves only or with inner nodes/root so that K also arises by inheritance; sizes biased to 1..30, 160..182 and up to 441) and a sample drawn from it; k-sweep cases fix N, K, n and build a sample for every feasible k. A small share of the cases (about 2 %) uses a second fixture of real-HPO size: a flat ontology with 20 000 leaves and 10 records with K from 1 to 19 000; background = all terms / all leaves / every s-th leaf, sample = k linked + n-k unlinked terms (n up to 2500), exact tail by a multiplicative big-integer recurrence, tolerance 1e-8. All three enrichment functions. Oracle: result ids = records linked to >=1 sample term, each once; count = k; p-value vs P[X>=k] computed with exact big integers (Pascal triangle, one rounding), relative 1e-9; fold = (k/n)/(K/N) relative 1e-12; 0<=p<=1 and p non-increasing in k along a sweep, both exact. evaluations = (record, N, K, n, k) tuples. Non-trivial = 0<k<min(K,n) and K<N; distinct = distinct (N,K,n,k) tuples (plus distinct sweeps).".into()
+        "Fixed two-level ontology loaded from own v3 bytes (root, 20 inner nodes, 420 leaves, every ninth leaf and one inner node flagged obsolete; 30 records per kind with the same ids in every kind, annotated to pseudo-random K-subsets of the leaves, K from 1 to 420 incl. 168..172). Generated per case: a background (subset of the terms, leaves only or with inner nodes/root so that K also arises by inheritance; sizes biased to 1..30, 160..182 and up to 441) and a sample drawn from it; k-sweep cases fix N, K, n and build a sample for every feasible k. A small share of the cases (about 2 %) uses a second fixture of real-HPO size: a flat ontology with 20 000 leaves and 10 records with K from 1 to 19 000; background = all terms / all leaves / every s-th leaf, sample = k linked + n-k unlinked terms (n up to 2500), exact tail by a multiplicative big-integer recurrence, tolerance 1e-8; deterministic sweeps in their own processes use freshly built flat ontologies of 100 000 - 250 000 leaves (tolerance 1e-7). All three enrichment functions. Oracle: result ids = records linked to >=1 sample term, each once; count = k; p-value vs P[X>=k] computed with exact big integers (Pascal triangle, one rounding), relative 1e-9; fold = (k/n)/(K/N) relative 1e-12; 0<=p<=1 and p non-increasing in k along a sweep, both exact. evaluations = (record, N, K, n, k) tuples. Non-trivial = 0<k<min(K,n) and K<N; distinct = distinct (N,K,n,k) tuples (plus distinct sweeps).".into()
     }
     fn assumptions(&self) -> Vec<String> {
         vec![
@@ -428,12 +451,29 @@ impl Property for C06 {
         }
     }
     fn required_labels(&self, _tier: Tier) -> Vec<&'static str> {
-        vec!["nontrivial", "N<=170", "N>170", "N~20000", "large:p<1e-12", "large:k-far-below-mean", "k-sweep>=3", "background-with-inner-nodes", "empty-sample"]
+        vec!["nontrivial", "N<=170", "N>170", "N~20000", "large:p<1e-12", "large:k-far-below-mean", "k-sweep>=3", "background-with-inner-nodes", "empty-sample", "N>=100000"]
     }
     fn run_generated(&self, _tier: Tier, seed: u64, n: u64, stats: &mut Stats) -> Option<(Value, Failure)> {
         run_typed(strategy(), seed, n, stats, check)
     }
     fn replay(&self, case: &Value, stats: &mut Stats) -> Result<CheckResult, String> {
+        if let Some(h) = case.get("huge") {
+            // (m, mode, stride, offset, target, k, n, rot)
+            let v: (u32, u8, u32, u32, usize, u32, u32, u32) = serde_json::from_value(h.clone()).map_err(|e| e.to_string())?;
+            stats.cases += 1;
+            return Ok(check_huge(v.0, v.1, v.2, v.3, v.4, v.5, v.6, v.7, stats));
+        }
         replay_typed::<Case, _>(case, stats, check)
+    }
+    fn isolated_plans(&self, tier: Tier, seed: u64) -> Vec<Value> {
+        // populations of 10^5 and more (one freshly built flat ontology per plan)
+        let rot = (seed % 1000) as u32;
+        let mut plans: Vec<(u32, u8, u32, u32, usize, u32, u32, u32)> = vec![(100_000, 1, 2, 0, 1, 2, 5, rot), (131_072, 0, 2, 0, 3, 12, 400, rot)];
+        if tier == Tier::Thorough {
+            plans.push((100_500, 1, 2, 0, 2, 1, 60, rot));
+            plans.push((250_000, 2, 3, 1, 4, 30, 1500, rot));
+            plans.push((99_999, 1, 2, 0, 5, 700, 2400, rot));
+        }
+        plans.into_iter().map(|p| json!({"huge": p})).collect()
     }
 }
